@@ -124,3 +124,129 @@ Proof.
   - intros x. rewrite (Qleb_comp _ _ (frac_period x) _ _ (Qeq_refl _)). reflexivity.
   - intros x y H. rewrite (Qleb_comp _ _ (frac_proper x y H) _ _ (Qeq_refl _)). reflexivity.
 Qed.
+
+(** * Re-configuration after construction (FIX-C18): attribute assignment, LFO.update, Timeline.lfo(name=existing),
+   LFO.reset, at any point of a history of ticks *)
+Lemma key_eqb_eq a b : key_eqb a b = true <-> a = b.
+Proof. destruct a, b; split; intro H; try reflexivity; discriminate H. Qed.
+
+Lemma setattr_keeps k x l : l_value (lfo_setattr k x l) = l_value l /\ l_time (lfo_setattr k x l) = l_time l.
+Proof. destruct k; split; reflexivity. Qed.
+
+Lemma update_keeps ps l : l_value (lfo_update ps l) = l_value l /\ l_time (lfo_update ps l) = l_time l.
+Proof.
+  revert l; induction ps as [|[k x] r IH]; intros l; [split; reflexivity|]. cbn [lfo_update].
+  destruct (IH (lfo_setattr k x l)) as [A B]. destruct (setattr_keeps k x l) as [C D].
+  rewrite A, B, C, D. split; reflexivity.
+Qed.
+
+Lemma setattr_get k k' x l : lfo_get k (lfo_setattr k' x l) = if key_eqb k k' then x else lfo_get k l.
+Proof. destruct k, k'; reflexivity. Qed.
+
+Lemma update_get_notin k ps l : lookup_key k ps = None -> lfo_get k (lfo_update ps l) = lfo_get k l.
+Proof.
+  revert l; induction ps as [|[k' x] r IH]; intros l H; [reflexivity|]. cbn [lfo_update lookup_key] in *.
+  destruct (key_eqb k k') eqn:E; [discriminate H|]. rewrite (IH _ H), setattr_get, E. reflexivity.
+Qed.
+
+Lemma lookup_notin k ps : ~ In k (map fst ps) -> lookup_key k ps = None.
+Proof.
+  induction ps as [|[k' x] r IH]; intros H; [reflexivity|]. cbn [lookup_key map fst In] in *.
+  destruct (key_eqb k k') eqn:E.
+  - apply key_eqb_eq in E. subst k'. exfalso. apply H. left. reflexivity.
+  - apply IH. intros HI. apply H. right. exact HI.
+Qed.
+
+(* a dict has each key once: the field named in the update gets the given value *)
+Lemma update_get_in k x ps l : NoDup (map fst ps) -> lookup_key k ps = Some x -> lfo_get k (lfo_update ps l) = x.
+Proof.
+  revert l; induction ps as [|[k' x'] r IH]; intros l ND H; [discriminate H|]. cbn [lfo_update lookup_key map fst] in *.
+  inversion ND as [|? ? NI ND']; subst. destruct (key_eqb k k') eqn:E.
+  - injection H as ->. apply key_eqb_eq in E. subst k'.
+    rewrite (update_get_notin k r _ (lookup_notin k r NI)), setattr_get.
+    assert (R : key_eqb k k = true) by (apply key_eqb_eq; reflexivity). rewrite R. reflexivity.
+  - apply IH; assumption.
+Qed.
+
+Lemma tl_update_at_length i ps ls : List.length (tl_update_at i ps ls) = List.length ls.
+Proof.
+  revert i; induction ls as [|[n l] r IH]; intros i; [destruct i; reflexivity|].
+  destruct i; cbn [tl_update_at List.length]; [reflexivity|]. rewrite IH. reflexivity.
+Qed.
+
+Lemma tl_update_at_other i ps ls j : j <> i -> nth_error (tl_update_at i ps ls) j = nth_error ls j.
+Proof.
+  revert i j; induction ls as [|[n l] r IH]; intros i j H; [destruct i; reflexivity|].
+  destruct i, j; cbn [tl_update_at nth_error]; try reflexivity; [congruence|]. apply IH. congruence.
+Qed.
+
+Lemma tl_update_at_same i ps ls n l : nth_error ls i = Some (n, l) ->
+  nth_error (tl_update_at i ps ls) i = Some (n, lfo_update ps l).
+Proof.
+  revert i; induction ls as [|[n' l'] r IH]; intros i H; [destruct i; discriminate H|].
+  destruct i; cbn [tl_update_at nth_error] in *; [injection H as -> ->; reflexivity|]. apply IH. exact H.
+Qed.
+
+Lemma tl_find_named name ls k i : tl_find name ls k = Some i ->
+  (k <= i)%nat /\ exists l, nth_error ls (i - k) = Some (Some name, l).
+Proof.
+  revert k; induction ls as [|[[n|] l] r IH]; intros k H; cbn [tl_find] in H; [discriminate H| |].
+  - destruct (n =? name)%Z eqn:E.
+    + injection H as <-. split; [lia|]. rewrite Nat.sub_diag. exists l. apply Z.eqb_eq in E. subst. reflexivity.
+    + destruct (IH _ H) as [A [l0 B]]. split; [lia|]. exists l0.
+      replace (i - k)%nat with (S (i - S k)) by lia. exact B.
+  - destruct (IH _ H) as [A [l0 B]]. split; [lia|]. exists l0.
+    replace (i - k)%nat with (S (i - S k)) by lia. exact B.
+Qed.
+
+Section ScriptFacts.
+  Variable sin2pi : Q -> Q.
+  Hypothesis sin_range : forall x, -1 <= sin2pi x <= 1.
+  Hypothesis sin_period : forall x, sin2pi (x + 1) == sin2pi x.
+  Hypothesis sin_proper : forall x y, x == y -> sin2pi x == sin2pi y.
+
+  Lemma lfo_run_app tpb a b l : lfo_run sin2pi tpb (a ++ b) l = lfo_run sin2pi tpb b (lfo_run sin2pi tpb a l).
+  Proof. revert l; induction a as [|o r IH]; intros l; [reflexivity|]. cbn [app lfo_run]. apply IH. Qed.
+
+  Lemma lfo_run_ticks tpb n l : lfo_run sin2pi tpb (repeat LTick n) l = lfo_ticks sin2pi tpb n l.
+  Proof. revert l; induction n as [|n IH]; intros l; [reflexivity|]. cbn [repeat lfo_run lfo_step lfo_ticks]. apply IH. Qed.
+
+  (* a tick reads the configuration as it is at that moment and leaves it alone *)
+  Lemma lfo_tick_reads tpb l : let l' := lfo_tick sin2pi tpb l in
+    l_freq l' = l_freq l /\ l_min l' = l_min l /\ l_max l' = l_max l
+    /\ l_value l' = lfo_wave sin2pi (l_freq l) (l_min l) (l_max l) (l_time l').
+  Proof. cbv zeta. unfold lfo_tick. cbn [l_freq l_min l_max l_value l_time]. repeat split. Qed.
+
+  (* whatever happened before - ticks, updates, resets, in any order - the value after a tick lies within the
+     bounds the LFO has at that tick *)
+  Lemma lfo_range_after_history tpb ops l : let l' := lfo_run sin2pi tpb (ops ++ [LTick]) l in
+    l_min l' <= l_max l' -> l_min l' <= lfo_value l' <= l_max l'.
+  Proof.
+    cbv zeta. rewrite lfo_run_app. cbn [lfo_run lfo_step]. set (m := lfo_run sin2pi tpb ops l).
+    destruct (lfo_tick_reads tpb m) as [_ [A [B C]]]. cbv zeta in *. unfold lfo_value. rewrite A, B, C.
+    intros H. apply (wave_range sin2pi sin_range). exact H.
+  Qed.
+
+  Lemma lfo_script_range tpb ops l :
+    Forall (fun e => fst (fst e) = true -> fst (snd e) <= snd (snd e) -> fst (snd e) <= snd (fst e) <= snd (snd e))
+           (lfo_script_trace sin2pi tpb ops l).
+  Proof.
+    revert l; induction ops as [|o r IH]; intros l; cbn [lfo_script_trace]; constructor; [|apply IH].
+    cbn [fst snd]. intros Ht H. destruct o; try discriminate Ht. cbn [lfo_step] in *.
+    destruct (lfo_tick_reads tpb l) as [_ [A [B C]]]. cbv zeta in *. rewrite A, B, C in *.
+    apply (wave_range sin2pi sin_range). exact H.
+  Qed.
+
+  (* current_time is the number of ticks since the start (or since the last reset): re-configuration does not
+     move the phase clock *)
+  Lemma lfo_run_time tpb ops l : forallb (fun o => negb (is_lreset o)) ops = true ->
+    l_time (lfo_run sin2pi tpb ops l) == l_time l + qnat (List.length (filter is_ltick ops)) * (1 / inject_Z tpb).
+  Proof.
+    revert l; induction ops as [|o r IH]; intros l H.
+    - cbn. change (qnat 0) with 0. ring.
+    - cbn [forallb] in H. apply andb_true_iff in H. destruct H as [Ho Hr]. cbn [lfo_run]. rewrite (IH _ Hr).
+      destruct o; cbn [filter is_ltick lfo_step List.length]; try discriminate Ho.
+      + unfold lfo_tick. cbn [l_time]. rewrite Qred_correct, qnat_S. ring.
+      + destruct (update_keeps props l) as [_ B]. rewrite B. reflexivity.
+  Qed.
+End ScriptFacts.
